@@ -88,6 +88,7 @@ public:
     bool done() const { return i_ >= n_; }
     size_t pos() const { return i_; }
     size_t left() const { return i_ < n_ ? n_ - i_ : 0; }
+    uint8_t tail() const { return n_ ? p_[n_ - 1] : uint8_t(0); } // the last byte, without consuming it (ambient choices)
     uint8_t u8() { return i_ < n_ ? p_[i_++] : (++i_, uint8_t(0)); }
     uint16_t u16() { uint16_t a = u8(); return uint16_t(a | (uint16_t(u8()) << 8)); }
     uint32_t u32() { uint32_t a = u16(); return a | (uint32_t(u16()) << 16); }
@@ -227,12 +228,44 @@ static inline void vp_once_report(Ctx &cx)
         char const *e = vp_once_findings[0];
         size_t k = 0;
         while (e[k] && e[k] != ' ' && k < 40) { ++k; }
-        snprintf(sig, sizeof(sig), "api:argument_evaluated_more_than_once:%.*s", int(k), e);
+        snprintf(sig, sizeof(sig), "%s:%.*s", strstr(e, "attribute const") ? "api:const_attribute_on_memory_reader" : "api:argument_evaluated_more_than_once", int(k), e);
         cx.fail(sig, "%s", e);
     }
 #else
     (void)cx;
 #endif
+}
+
+// Ambient process state the caller of a library is free to have: a stale errno from an unrelated earlier call and - for the
+// executors whose results do not depend on floating-point rounding (they define VP_AMBIENT_ROUNDING) - the dynamic rounding mode.
+// Chosen per case from the LAST byte of the tape (not consumed from the stream, so the decoding of the case is unchanged);
+// restored afterwards. An empty tape or a last byte of 0 gives errno 0 and round-to-nearest.
+#include <cerrno>
+#include <cfenv>
+static int g_vp_ambient_round = FE_TONEAREST;
+static inline int vp_ambient_enter(uint8_t const *tape, size_t n)
+{
+    static int const errs[8] = {0, EOVERFLOW, ERANGE, EDOM, EILSEQ, ENOMEM, EINVAL, EINTR};
+    uint8_t ab = n ? tape[n - 1] : 0;
+    int old = fegetround();
+    g_vp_ambient_round = FE_TONEAREST;
+#ifdef VP_AMBIENT_ROUNDING
+    switch ((ab >> 3) & 7)
+    {
+    case 5: g_vp_ambient_round = FE_DOWNWARD; break;
+    case 6: g_vp_ambient_round = FE_UPWARD; break;
+    case 7: g_vp_ambient_round = FE_TOWARDZERO; break;
+    default: break;
+    }
+    fesetround(g_vp_ambient_round);
+#endif
+    errno = errs[ab & 7];
+    return old;
+}
+static inline void vp_ambient_leave(int old)
+{
+    fesetround(old);
+    errno = 0;
 }
 
 // wrapper: executors implement `static void run_case(Tape &, Ctx &)` and use VP_DEFINE_RUN
@@ -241,6 +274,7 @@ static inline void vp_once_report(Ctx &cx)
     {                                                                         \
         Tape t(tape, n);                                                      \
         Ctx cx(rep);                                                          \
+        int vp_amb_ = vp_ambient_enter(tape, n);                              \
         try                                                                   \
         {                                                                     \
             vp_once_report(cx);                                               \
@@ -248,6 +282,7 @@ static inline void vp_once_report(Ctx &cx)
         }                                                                     \
         catch (vp_fail const &)                                               \
         {                                                                     \
+            vp_ambient_leave(vp_amb_);                                        \
             rep->hash = cx.hash.h;                                            \
             if (vp_is_known(rep->sig))                                        \
             {                                                                 \
@@ -257,6 +292,7 @@ static inline void vp_once_report(Ctx &cx)
             }                                                                 \
             return 1;                                                         \
         }                                                                     \
+        vp_ambient_leave(vp_amb_);                                            \
         rep->hash = cx.hash.h;                                                \
         return 0;                                                             \
     }
